@@ -846,6 +846,16 @@ func (Prop) Run(c *engine.Ctx) {
 			}
 		}
 	}
+	// E4: block operation k of an earlier call fails, the object is used again
+	for _, sc := range schemeList {
+		for _, cs := range ciphers {
+			if !applicable(sc, cs) || (cs.name != "sm4" && cs.name != "des") {
+				continue
+			}
+			sc, cs := sc, cs
+			c.Case(fmt.Sprintf("e4/block-failure-then-reuse/%s/%s", sc.name, cs.name), func(t *engine.T) { faultCase(t, sc, cs, pads(sc)[0]) })
+		}
+	}
 	// injectivity
 	for _, sc := range schemeList {
 		for _, cs := range ciphers {
